@@ -763,6 +763,20 @@ impl Workload for LoWorkload {
                     if viol.is_some() {
                         break;
                     }
+                    // "exactly one column per substituted site" holds with a reference too: every
+                    // planted site has its record (once), none is silently dropped
+                    {
+                        let distinct: BTreeSet<usize> = called.iter().copied().collect();
+                        if distinct.len() < called.len() {
+                            viol = Some(("lo:spurious-or-duplicated-snp-column".into(), format!("{ctxs}: the VCF holds two records at one coordinate; called (0-based) {called:?}")));
+                            break;
+                        }
+                        if distinct.len() < c.sites.len() {
+                            let missed: Vec<usize> = c.sites.keys().map(|p| if c.ref_rc { l - 1 - p } else { *p }).filter(|x| !distinct.contains(x)).map(|x| x + 1).collect();
+                            viol = Some(("lo:isolated-snp-missed".into(), format!("{ctxs}: no VCF record (and no column) for the planted sites at reference coordinates (1-based) {missed:?}; planted {} sites, {} reported", c.sites.len(), distinct.len())));
+                            break;
+                        }
+                    }
                     // SNP alignment = the called positions in increasing order with the true bases
                     let cols = (0..seqs[0].len()).map(|i| seqs.iter().map(|s| s[i]).collect::<Vec<u8>>()).collect::<Vec<_>>();
                     let mut cs = called.clone();
